@@ -14,6 +14,8 @@ def is_old(sem, x, cell, fields=()):
         if a == DEFAULT:
             continue
         lab = sem.label(a)
+        if lab is not None and lab[0] == "const" and lab[1] == "lib" and lab[2].endswith("::zero"):
+            continue  # explicit zero default of a missing entry
         if lab is not None and lab[0] == "stored" and lab[1] == cell and tuple(lab[3]) == tuple(fields):
             saw = True
             continue
